@@ -69,7 +69,8 @@ func (f *Adjoin) Call(s *slip.Scope, args slip.List, depth int) slip.Object {
 		keyFunc  slip.Caller
 		testFunc slip.Caller
 	)
-	for pos := 2; pos < len(args)-1; pos += 2 {
+	pos := 2
+	for ; pos < len(args)-1; pos += 2 {
 		sym, ok := args[pos].(slip.Symbol)
 		if !ok {
 			slip.TypePanic(s, depth, "keyword", args[pos], "keyword")
@@ -83,6 +84,9 @@ func (f *Adjoin) Call(s *slip.Scope, args slip.List, depth int) slip.Object {
 		default:
 			slip.TypePanic(s, depth, "keyword", sym, ":key", ":test")
 		}
+	}
+	if pos < len(args) {
+		slip.ErrorPanic(s, depth, "extra arguments that are not keyword and value pairs")
 	}
 	d2 := depth + 1
 	if keyFunc != nil {
